@@ -35,20 +35,22 @@ def lib(name):
 
 
 def str_map(ex, e, st, base, attr):
-    """s.replace(a, b) for single characters and s.upper(): character-wise maps -> fresh array defined point-wise."""
-    ex.trusted_used.add("str.replace (single characters) / str.upper: character-wise map")
+    """s.replace(a, b) for single characters and s.upper(): character-wise maps, as deterministic array functions."""
+    ex.trusted_used.add("str.replace (single characters) / str.upper / [::-1]: character-wise maps")
+    if base.delta != 0 or lit(base.start) != 0:
+        # normalise the view first (copy semantics): a fresh array that agrees with the view
+        out0 = Seq("str", "char", fresh("sview", A), base.n)
+        i0 = fresh("q")
+        st.assume(z3.ForAll([i0], z3.Implies(z3.And(0 <= i0, i0 < base.n), out0.arr[i0] == base.at(i0)), patterns=[out0.arr[i0]]))
+        base = out0
+    ex.use_str_axioms()
     if attr == "replace":
         a, b = ex.ev(e.args[0], st), ex.ev(e.args[1], st)
         ta, tb = getattr(a, "const", None), getattr(b, "const", None)
         if ta is None or tb is None or len(ta) != 1 or len(tb) != 1:
             raise U("replace with non-constant or multi-character arguments")
-        f = lambda v: z3.If(v == ord(ta), iv(ord(tb)), v)
-    else:
-        f = lambda v: z3.If(z3.And(v >= 97, v <= 122), v - 32, v)
-    out = Seq("str", "char", fresh("smap", A), base.n)
-    i = fresh("q")
-    st.assume(z3.ForAll([i], z3.Implies(z3.And(0 <= i, i < base.n), out.arr[i] == f(base.at(i))), patterns=[out.arr[i]]))
-    return out
+        return Seq("str", "char", specz3.repl(base.arr, iv(ord(ta)), iv(ord(tb))), base.n)
+    return Seq("str", "char", specz3.upper(base.arr), base.n)
 
 
 def astype(ex, e, st, base):
